@@ -23,7 +23,7 @@ ASSUMPTIONS = [
     "user-mapped exception classes are only generated in single-exception programs",
 ]
 
-PROG = st.one_of(P.programs(multi=True, expect=True, force=True, cleanup_depth=2, p_raise=6, extras=True),
+PROG = st.one_of(P.programs(multi=True, expect=True, force=True, cleanup_depth=2, p_raise=6, extras=True, skip_handlers=True),
                  P.programs(custom=True, cleanup_depth=1, p_raise=0))
 CASE = st.fixed_dictionaries({"prog": PROG, "flavour": st.sampled_from(["ext", "real", "ext"])})
 FAILING = {"addFailure", "addError", "addUnexpectedSuccess"}
@@ -53,8 +53,9 @@ def run_case(spec):
             vs.append(V("single-mapping", "%s->%s" % (kinds[0], out) + ("-userhandlers" if prog["handlers"] else ""),
                         "single %s raised in %s reported as %s, handler table %r says %s" % (
                             kinds[0], model.raised[0]["stage"], out, model.handler_table(), want)))
-    # (3) failures are never masked
-    if any(c in ("failure", "error", "nonexc") for c in classes) and not prog["handlers"]:
+    # (3) failures are never masked (user handlers, if any, are only for the skip class here)
+    only_skip_handlers = all(h["cls"] == "SkipTest" for h in prog["handlers"])
+    if any(c in ("failure", "error", "nonexc") for c in classes) and (only_skip_handlers if len(kinds) > 1 else not prog["handlers"]):
         if out not in FAILING:
             first_bad = next(r for r in model.raised if P.klass(r["kind"]) in ("failure", "error", "nonexc"))
             vs.append(V("masked", "%s-reported-as-%s" % (P.klass(first_bad["kind"]), out),
